@@ -49,6 +49,18 @@ fn mk_names(r: &mut Rng, ni: u64, ng: u64, ns: u64, tag: u64) -> Names {
             }
         })
         .collect();
+    let mut secrets: Vec<String> = secrets;
+    // names that differ ONLY in leading / trailing whitespace are different secrets
+    if ns >= 2 && r.chance(1, 3) {
+        let base = secrets[0].trim().to_string();
+        secrets[0] = base.clone();
+        secrets[1] = match r.below(4) {
+            0 => format!(" {base}"),
+            1 => format!("{base}\n"),
+            2 => format!("\u{a0}{base}"),
+            _ => format!("\t{base}  "),
+        };
+    }
     Names { ents, secrets, values: vec![], vid: HashMap::new() }
 }
 fn new_value(r: &mut Rng, nm: &mut Names, tag: u64) -> u64 {
@@ -137,6 +149,8 @@ enum Op {
     Revoke(u64, u64, u64),
     Delegate(u64, u64, Vec<u64>, u64, Option<u64>),
     Sealed(u64, u64, u64),
+    RevokeDeleg(u64, u64),
+    RevokeCascade(u64, u64),
     Perm(u64, u64),
     Member(u64, u64),
     Unmember(u64, u64),
@@ -158,6 +172,8 @@ impl Op {
             Op::Revoke(r, e, s) => format!("ORevoke {r} {e} {s}"),
             Op::Delegate(p, c, ss, l, t) => format!("ODelegate {p} {c} {} {l} {}", list(ss.iter().map(|x| n(*x))), ttl_coq(t)),
             Op::Sealed(d, r, s) => format!("OSealed {d} {r} {s}"),
+            Op::RevokeDeleg(p, c) => format!("ORevokeDeleg {p} {c}"),
+            Op::RevokeCascade(p, c) => format!("ORevokeCascade {p} {c}"),
             Op::Perm(r, s) => format!("OPerm {r} {s}"),
             Op::Member(a, b) => format!("OMember {a} {b}"),
             Op::Unmember(a, b) => format!("OUnmember {a} {b}"),
@@ -262,6 +278,14 @@ fn run_ops(c: &mut Ctx, nm: &Names, ops: &[Op], dist: &mut Dist) -> Out {
                 };
                 format!("ALevel {}", opt(Some(n(l))))
             }
+            Op::RevokeDeleg(p, ch) => {
+                let res = v.revoke_delegation(nm.ent(*p), nm.ent(*ch)).map(|_| ());
+                format!("ACode {}", code_of(res, &mut out))
+            }
+            Op::RevokeCascade(p, ch) => {
+                let res = v.revoke_delegation_cascading(nm.ent(*p), nm.ent(*ch)).map(|_| ());
+                format!("ACode {}", code_of(res, &mut out))
+            }
             Op::Perm(r, s) => format!("ALevel {}", opt(Some(n(v.get_permission(nm.ent(*r), nm.sec(*s)).map(lvl_code).unwrap_or(0))))),
             Op::Member(a, b) => {
                 let (x, y) = (node(&c.graph, nm.ent(*a)), node(&c.graph, nm.ent(*b)));
@@ -294,6 +318,8 @@ fn run_ops(c: &mut Ctx, nm: &Names, ops: &[Op], dist: &mut Dist) -> Out {
             Op::Revoke(..) => "op.revoke",
             Op::Delegate(..) => "op.delegate",
             Op::Sealed(..) => "op.sealed_window",
+            Op::RevokeDeleg(..) => "op.revoke_delegation",
+            Op::RevokeCascade(..) => "op.revoke_delegation_cascading",
             Op::Perm(..) => "op.get_permission",
             Op::Member(..) => "op.member_add",
             Op::Unmember(..) => "op.member_remove",
@@ -398,6 +424,18 @@ fn gen_ops(r: &mut Rng, nm: &mut Names, ni: u64, ng: u64, ns: u64, len: usize, t
             ops.push(Op::Delegate(p, ch, ss.clone(), lv, tt));
             for sx in &ss {
                 ops.push(Op::Perm(ch, *sx));
+            }
+            if r.chance(1, 3) {
+                // re-delegate the same secrets at another level, then revoke the delegation: nothing may survive
+                let lv2 = r.range(1, 3);
+                ops.push(Op::Delegate(p, ch, ss.clone(), lv2, None));
+                ops.push(if r.chance(1, 2) { Op::RevokeDeleg(p, ch) } else { Op::RevokeCascade(p, ch) });
+                let v = new_value(r, nm, tag);
+                ops.push(Op::Perm(ch, ss[0]));
+                ops.push(Op::Get(ch, ss[0]));
+                ops.push(Op::Rotate(ch, ss[0], v));
+                ops.push(Op::RevokeDeleg(p, ch));
+                continue;
             }
             // deepen the chain / close a cycle / delegate to oneself: the calls DelegationManager refuses
             match r.below(4) {
@@ -829,6 +867,113 @@ fn main() {
             ];
             run_history(tag, *pol, nm, ops, "corpus list for a member with grants at and beyond the horizon", &mut hist, &mut scan, &mut dist, &mut hits);
         }
+    }
+
+    {
+        // seeded C14-r4-1 shape: delegate at one level, re-delegate at another, revoke_delegation, child tries
+        for (vi, (l1, l2)) in [(1u64, 2u64), (2, 1), (3, 1), (2, 2)].iter().enumerate() {
+            let tag = 930 + vi as u64;
+            let mut nm = mk_names(&mut rng, 3, 1, 2, tag);
+            let v0 = new_value(&mut rng, &mut nm, tag);
+            let v1 = new_value(&mut rng, &mut nm, tag);
+            let v2 = new_value(&mut rng, &mut nm, tag);
+            let ops = vec![
+                Op::Set(0, 0, v0),
+                Op::Set(0, 1, v1),
+                Op::Grant(0, 1, 0, 3, None),
+                Op::Grant(0, 1, 1, 3, None),
+                Op::Delegate(1, 2, vec![0, 1], *l1, None),
+                Op::Delegate(1, 2, vec![0, 1], *l2, None),
+                Op::Perm(2, 0),
+                Op::RevokeDeleg(1, 2),
+                Op::Perm(2, 0),
+                Op::Perm(2, 1),
+                Op::Get(2, 0),
+                Op::Get(2, 1),
+                Op::Rotate(2, 0, v2),
+                Op::ListExact(2, 1),
+                Op::RevokeDeleg(1, 2),
+                Op::RevokeDeleg(2, 3),
+                Op::Delegate(0, 3, vec![0], 2, Some(LONG)),
+                Op::RevokeDeleg(0, 3),
+                Op::Get(3, 0),
+            ];
+            run_history(tag, (3, 3, 10), nm, ops, "corpus delegate, re-delegate at another level, revoke_delegation, then every access", &mut hist, &mut scan, &mut dist, &mut hits);
+        }
+        // cascading revoke over a subtree whose delegations were re-issued at other levels (up and down)
+        for (vi, (l1, l2, l3)) in [(2u64, 1u64, 1u64), (1, 2, 1), (3, 1, 2)].iter().enumerate() {
+            let tag = 935 + vi as u64;
+            let mut nm = mk_names(&mut rng, 4, 1, 1, tag);
+            let v0 = new_value(&mut rng, &mut nm, tag);
+            let mut ops = vec![
+                Op::Set(0, 0, v0),
+                Op::Grant(0, 1, 0, 3, None),
+                Op::Delegate(1, 2, vec![0], *l1, None),
+                Op::Delegate(2, 3, vec![0], *l3, None),
+                Op::Delegate(1, 2, vec![0], *l2, None), // same parent/child, changed level
+                Op::Delegate(2, 3, vec![0], 1, None),
+                Op::Delegate(3, 4, vec![0], 1, None),
+                Op::RevokeCascade(1, 2),
+            ];
+            for e in 1..=4u64 {
+                ops.push(Op::Perm(e, 0));
+                ops.push(Op::Get(e, 0));
+            }
+            ops.push(Op::RevokeCascade(1, 2));
+            ops.push(Op::RevokeDeleg(2, 3));
+            run_history(tag, (3, 3, 10), nm, ops, "corpus re-delegations at other levels, cascading revoke, probes for the whole subtree", &mut hist, &mut scan, &mut dist, &mut hits);
+        }
+        // seeded C14-r4-2 shape: two secrets whose names differ only in surrounding whitespace (space, tab, newline,
+        // NBSP), or are whitespace-only
+        for (vi, (base, other)) in [("XALIAS940", " XALIAS940"), ("XALIAS940", "XALIAS940\n"), ("XALIAS940", "\tXALIAS940 "), ("XALIAS940", "\u{a0}XALIAS940\u{a0}"), (" ", "\t\n"), ("\u{a0}", "  ")].iter().enumerate() {
+            let tag = 940 + vi as u64;
+            let mut nm = mk_names(&mut rng, 2, 1, 2, tag);
+            nm.secrets[0] = (*base).into();
+            nm.secrets[1] = (*other).into();
+            let v0 = new_value(&mut rng, &mut nm, tag);
+            let v1 = new_value(&mut rng, &mut nm, tag);
+            let v2 = new_value(&mut rng, &mut nm, tag);
+            let ops = vec![
+                Op::Set(0, 0, v0),
+                Op::Get(0, 1),
+                Op::Grant(0, 1, 0, 2, None),
+                Op::Perm(1, 1),
+                Op::Get(1, 1),
+                Op::ListExact(1, 1),
+                Op::Set(0, 1, v1),
+                Op::Get(0, 0),
+                Op::Get(0, 1),
+                Op::Rotate(1, 1, v2),
+                Op::Get(1, 0),
+                Op::List(1),
+                Op::Grant(0, 2, 1, 1, None),
+                Op::Get(2, 0),
+                Op::Delete(0, 1),
+                Op::Get(1, 0),
+            ];
+            run_history(tag, (1, 2, 10), nm, ops, "corpus secret names differing only in surrounding whitespace", &mut hist, &mut scan, &mut dist, &mut hits);
+        }
+        // seeded C14-r4-3 shape: granting needs ADMIN whatever level is granted
+        let mut nm = mk_names(&mut rng, 4, 1, 1, 945);
+        let v0 = new_value(&mut rng, &mut nm, 945);
+        let ops = vec![
+            Op::Set(0, 0, v0),
+            Op::Grant(0, 1, 0, 2, None),
+            Op::Grant(0, 2, 0, 1, None),
+            Op::Grant(1, 3, 0, 2, None),
+            Op::Grant(1, 3, 0, 1, None),
+            Op::Grant(2, 4, 0, 1, None),
+            Op::Grant(1, 3, 0, 1, Some(LONG)),
+            Op::Perm(3, 0),
+            Op::Perm(4, 0),
+            Op::Get(3, 0),
+            Op::Get(4, 0),
+            Op::Revoke(1, 2, 0),
+            Op::Revoke(2, 1, 0),
+            Op::Get(2, 0),
+            Op::Get(1, 0),
+        ];
+        run_history(945, (1, 2, 10), nm, ops, "corpus grants and revokes attempted with Write / Read only", &mut hist, &mut scan, &mut dist, &mut hits);
     }
 
     // ---- random long mixed histories
